@@ -89,6 +89,24 @@ Proof.
   intros H. rewrite (alias_without_source _ _ _ H). reflexivity.
 Qed.
 
+(* NESTED CONTEXTS.  Contexts as chains, each level with or without an id, lookup = nearest id.
+   WithContext over ANY parent chain (a parent that already carries an id, a WithCancel/WithValue
+   derivation of it, ...) puts a level with the freshly allocated id on top -- never the
+   parent's; a derivation without id shows the parent's id; AliasContext(parent, source) carries
+   the source's id when the source chain has one and a FRESH id otherwise (nil source, or a source
+   without id), whatever the parent carries. *)
+Theorem c18_nested_fresh g parent :
+  repo_skel = [IAtomicAdd; IRetReg] /\
+  chain_id (snd (with_context_chain repo_skel g parent)) = Some (g + 1) /\
+  chain_id (derive_chain parent) = chain_id parent.
+Proof. split; [vm_compute; reflexivity|]. split; [reflexivity|exact (derive_chain_id parent)]. Qed.
+Theorem c18_nested_alias g parent source :
+  (forall sc cid, source = Some sc -> chain_id sc = Some cid ->
+     alias_chain [IAtomicAdd; IRetReg] g parent source = (g, Some cid :: parent)) /\
+  ((source = None \/ exists sc, source = Some sc /\ chain_id sc = None) ->
+     chain_id (snd (alias_chain [IAtomicAdd; IRetReg] g parent source)) = Some (g + 1)).
+Proof. exact (alias_chain_spec g parent source). Qed.
+
 (* LINE FORMAT.  One logging call hands log.Logger one text; log.Logger (flags date|time|
    microseconds, prefix = level label regenerated from logger.go) performs ONE Write of
    label ++ timestamp ++ " " ++ text, with a newline appended iff the text does not end in one.
@@ -191,6 +209,8 @@ Print Assumptions c18_line_format_println.
 Print Assumptions c18_line_println_general.
 Print Assumptions c18_line_format_printf.
 Print Assumptions c18_dec.
+Print Assumptions c18_nested_fresh.
+Print Assumptions c18_nested_alias.
 Print Assumptions c18_log_goes_to_current.
 Print Assumptions c18_switch_sets_current.
 Print Assumptions c18_close_silences.
